@@ -68,6 +68,10 @@ fn main() {
         }
         ("C09", None) => checks::c09::run(&ctx),
         ("C09", Some(r)) => checks::c09::replay(&ctx, &r["case"]),
+        ("C18DBG", _) => {
+            checks::c18::debug(&args);
+            std::process::exit(0);
+        }
         ("C09DBG", _) => {
             checks::c09::debug(&args);
             std::process::exit(0);
